@@ -1,7 +1,11 @@
 //! C15: the real `thread_manager::run` with a fault injected into one worker (cfg-gated fault
 //! points) or a real cause of death; how long until run() returns.  One scenario per process,
 //! inside a private mount namespace (the daemon uses /var/run/clockbound/shm and chronyd's socket).
-//!   thr <point|unwritable-segment> <nth> <0 = panic | 1 = return> [<chronyd: 0 = absent | 1 = hung>]
+//!   thr <point|unwritable-segment> <nth> <0 = panic | 1 = return> [<chronyd: 0 = absent | 1 = hung | 2 = answers once>
+//!       [<delay point> <nth> <ms>]]
+//! chronyd answers once: the first request gets tracking data, every later one a well-formed reply
+//! without tracking data (so the poller reports "not responding, within the grace period").
+//! delay: the thread reaching <delay point> for the <nth> time sleeps <ms> (a slow thread: messages queue up behind it).
 //! chronyd absent: the poller's request fails at once.  chronyd hung: its socket exists and queues
 //! requests nobody answers, so the poller sits in each request for the client's time-out (3 x 1 s)
 //! and is not at its mailbox when another thread dies.
@@ -24,6 +28,45 @@ pub fn run(toks: &[&str]) -> String {
     } else {
         None
     };
+    let answering = toks.len() > 3 && p::<i64>(toks[3]) == 2;
+    if answering {
+        let _ = std::fs::create_dir_all("/var/run/chrony");
+        let _ = std::fs::remove_file("/var/run/chrony/chronyd.sock");
+        let srv = std::os::unix::net::UnixDatagram::bind("/var/run/chrony/chronyd.sock").expect("bind the fake chronyd's socket (run inside the namespace)");
+        std::thread::spawn(move || {
+            use bytes::BytesMut;
+            use chrony_candm::reply::{Reply, ReplyBody, Status};
+            use chrony_candm::request::Request;
+            let mut buf = [0u8; 1500];
+            let mut n = 0u32;
+            loop {
+                let (len, from) = match srv.recv_from(&mut buf) {
+                    Ok(x) => x,
+                    Err(_) => continue,
+                };
+                let mut b = &buf[..len];
+                let req = match Request::deserialize(&mut b) {
+                    Ok(r) => r,
+                    Err(_) => continue,
+                };
+                let path = match from.as_pathname() {
+                    Some(p) => p.to_owned(),
+                    None => continue,
+                };
+                let reply = if n == 0 {
+                    let now = std::time::SystemTime::now().duration_since(std::time::UNIX_EPOCH).unwrap();
+                    let t = crate::bound::mk_tracking(7, 0, now.as_secs() as i64, now.subsec_nanos(), 0, 0, 0, 4 << 25 | 1 << 23);
+                    Reply { status: Status::Success, cmd: 33, sequence: req.sequence, body: ReplyBody::Tracking(t) }
+                } else {
+                    Reply { status: Status::Unauth, cmd: 33, sequence: req.sequence, body: ReplyBody::Null }
+                };
+                n += 1;
+                let mut out = BytesMut::with_capacity(reply.length());
+                reply.serialize(&mut out);
+                let _ = srv.send_to(&out, &path);
+            }
+        });
+    }
     let real_cause = point == "unwritable-segment";
     if real_cause {
         // the segment's directory cannot be created: ShmWriter::new fails, the writer thread panics
@@ -33,6 +76,9 @@ pub fn run(toks: &[&str]) -> String {
     } else {
         let _ = std::fs::remove_file("/var/run/clockbound");
         verif_fault::arm(Some((point, nth, fault)));
+    }
+    if toks.len() > 6 {
+        verif_fault::arm_delay(toks[4], p(toks[5]), p(toks[6]));
     }
     let t0 = Instant::now();
     let (tx, rx) = std::sync::mpsc::channel();
